@@ -41,6 +41,7 @@ import (
 func init() {
 	subcmds["c13-chan"] = c13Chan
 	subcmds["c13-shared"] = c13Shared
+	subcmds["c13-own"] = c13Own
 }
 
 // ---- channel scenarios ------------------------------------------------------
@@ -369,7 +370,8 @@ type c13Trace struct {
 }
 
 type c13Variant struct {
-	W     int      `json:"w"` // the value of the global c13_which these states were given
+	Ph    string   `json:"ph"` // "alone-shared", "concurrent", "lockstep"
+	W     int      `json:"w"`  // the value of the global c13_which these states were given
 	N     int      `json:"n"` // how many states produced exactly this trace
 	Trace c13Trace `json:"trace"`
 }
@@ -451,7 +453,7 @@ func c13SnapDiff(before, after [][]string) string {
 
 // c13RunProto runs a fresh state on a function made from the shared prototype
 // and records the observable trace exactly as lua-run does for a source text.
-func c13RunProto(proto *lua.FunctionProto, budget int, minimize bool, which int) (tr c13Trace) {
+func c13RunProto(proto *lua.FunctionProto, budget int, minimize bool, which int, turn func()) (tr c13Trace) {
 	res := progOut{Emits: []interface{}{}}
 	// minimize: auto-growing call stack whose segments come from the package-level segmentPool
 	L := lua.NewState(lua.Options{MinimizeStackMemory: minimize})
@@ -460,6 +462,14 @@ func c13RunProto(proto *lua.FunctionProto, budget int, minimize bool, which int)
 	ctx := newDetCtx(budget, nil)
 	L.SetContext(ctx)
 	L.SetGlobal("c13_which", lua.LNumber(which))
+	// c13_turn(): in a lock-step schedule the state hands the baton to the next state here and
+	// waits for its next turn; alone (and in the free-running phase) it does nothing
+	L.SetGlobal("c13_turn", L.NewFunction(func(L *lua.LState) int {
+		if turn != nil {
+			turn()
+		}
+		return 0
+	}))
 	L.SetGlobal("emit", L.NewFunction(func(L *lua.LState) int {
 		n := L.GetTop()
 		vs := make([]lua.LValue, n)
@@ -505,6 +515,59 @@ func c13RunProto(proto *lua.FunctionProto, budget int, minimize bool, which int)
 	}
 	res.Outcome = []interface{}{"ok", tk.toks(vs)}
 	return
+}
+
+// c13Baton: exactly one of n goroutines runs at a time; the baton moves round-robin.
+type c13Baton struct {
+	mu    sync.Mutex
+	cond  *sync.Cond
+	cur   int
+	alive []bool
+}
+
+func newC13Baton(n int) *c13Baton {
+	b := &c13Baton{alive: make([]bool, n)}
+	for i := range b.alive {
+		b.alive[i] = true
+	}
+	b.cond = sync.NewCond(&b.mu)
+	return b
+}
+
+func (b *c13Baton) next(k int) {
+	for d := 1; d <= len(b.alive); d++ {
+		j := (k + d) % len(b.alive)
+		if b.alive[j] {
+			b.cur = j
+			return
+		}
+	}
+}
+
+func (b *c13Baton) wait(k int) {
+	b.mu.Lock()
+	for b.cur != k {
+		b.cond.Wait()
+	}
+	b.mu.Unlock()
+}
+
+func (b *c13Baton) turn(k int) {
+	b.mu.Lock()
+	b.next(k)
+	b.cond.Broadcast()
+	for b.cur != k {
+		b.cond.Wait()
+	}
+	b.mu.Unlock()
+}
+
+func (b *c13Baton) finish(k int) {
+	b.mu.Lock()
+	b.alive[k] = false
+	b.next(k)
+	b.cond.Broadcast()
+	b.mu.Unlock()
 }
 
 func c13Compile(src string) (*lua.FunctionProto, error) {
@@ -562,7 +625,7 @@ func c13Shared(args []string) int {
 		// compilation; then compile the shared prototype once, observe it, run it alone, observe
 		for i, p := range grp {
 			outs[i].ID = p.ID
-			outs[i].NStates = *n + 1
+			outs[i].NStates = *n + 1 + 4
 			outs[i].ObsNames = []string{"compiled", "after the run alone", "after the concurrent runs"}
 			for w := 0; w < nwhich; w++ {
 				priv, err := c13Compile(p.Src)
@@ -570,7 +633,7 @@ func c13Shared(args []string) int {
 					outs[i].CompileEr = err.Error()
 					break
 				}
-				outs[i].Seqs = append(outs[i].Seqs, c13RunProto(priv, *budget, false, w))
+				outs[i].Seqs = append(outs[i].Seqs, c13RunProto(priv, *budget, false, w, nil))
 			}
 			if outs[i].CompileEr != "" {
 				continue
@@ -583,7 +646,7 @@ func c13Shared(args []string) int {
 			protos[i] = proto
 			var s0, s1 [][]string
 			c13Snapshot(proto, &s0, "f")
-			alone[i] = c13RunProto(proto, *budget, false, 0)
+			alone[i] = c13RunProto(proto, *budget, false, 0, nil)
 			c13Snapshot(proto, &s1, "f")
 			snaps[i] = [][][]string{s0, s1}
 			outs[i].ProtoSize = len(s0)
@@ -605,7 +668,7 @@ func c13Shared(args []string) int {
 					if k%2 == 1 {
 						runtime.Gosched()
 					}
-					traces[i][k] = c13RunProto(protos[i], *budget, (k/2)%2 == 1, k%nwhich)
+					traces[i][k] = c13RunProto(protos[i], *budget, (k/2)%2 == 1, k%nwhich, nil)
 				}(i, k)
 			}
 		}
@@ -626,7 +689,7 @@ func c13Shared(args []string) int {
 						c13Compile(src)
 					default: // load in a state of its own, run, close
 						if proto, err := c13Compile(src); err == nil {
-							c13RunProto(proto, *budget/10, j%2 == 0, j%nwhich)
+							c13RunProto(proto, *budget/10, j%2 == 0, j%nwhich, nil)
 						}
 					}
 				}
@@ -636,6 +699,28 @@ func c13Shared(args []string) int {
 		wg.Wait()
 		atomic.StoreInt32(&stop, 1)
 		cwg.Wait()
+		// phase 2b: a deterministic schedule - the states of one program run in lock step, the
+		// baton moves round-robin at every c13_turn() of the script (and when a state ends)
+		const nlock = 4
+		lock := make([][]c13Trace, len(grp))
+		for i := range grp {
+			if protos[i] == nil {
+				continue
+			}
+			lock[i] = make([]c13Trace, nlock)
+			b := newC13Baton(nlock)
+			var lwg sync.WaitGroup
+			for k := 0; k < nlock; k++ {
+				lwg.Add(1)
+				go func(i, k int) {
+					defer lwg.Done()
+					b.wait(k)
+					defer b.finish(k)
+					lock[i][k] = c13RunProto(protos[i], *budget, false, k%nwhich, func() { b.turn(k) })
+				}(i, k)
+			}
+			lwg.Wait()
+		}
 		// phase 3: observe the shared prototypes again, fold identical traces
 		for i := range grp {
 			if protos[i] == nil {
@@ -654,32 +739,39 @@ func c13Shared(args []string) int {
 				}
 			}
 			type wk struct {
-				w int
-				k string
+				ph string
+				w  int
+				k  string
 			}
 			count := map[wk]int{}
 			first := map[wk]c13Trace{}
-			note := func(w int, t c13Trace) {
-				k := wk{w, c13TraceKey(t)}
+			note := func(ph string, w int, t c13Trace) {
+				k := wk{ph, w, c13TraceKey(t)}
 				count[k]++
 				first[k] = t
 			}
-			note(0, alone[i])
+			note("alone-shared", 0, alone[i])
 			for k, t := range traces[i] {
-				note(k%nwhich, t)
+				note("concurrent", k%nwhich, t)
+			}
+			for k, t := range lock[i] {
+				note("lockstep", k%nwhich, t)
 			}
 			keys := make([]wk, 0, len(count))
 			for k := range count {
 				keys = append(keys, k)
 			}
 			sort.Slice(keys, func(a, b int) bool {
+				if keys[a].ph != keys[b].ph {
+					return keys[a].ph < keys[b].ph
+				}
 				if keys[a].w != keys[b].w {
 					return keys[a].w < keys[b].w
 				}
 				return keys[a].k < keys[b].k
 			})
 			for _, k := range keys {
-				outs[i].Conc = append(outs[i].Conc, c13Variant{k.w, count[k], first[k]})
+				outs[i].Conc = append(outs[i].Conc, c13Variant{k.ph, k.w, count[k], first[k]})
 			}
 			w.write(outs[i])
 		}
@@ -699,4 +791,68 @@ func c13ReadNdjson(path string, out *[]json.RawMessage) {
 			*out = append(*out, json.RawMessage(l))
 		}
 	}
+}
+
+// ---- ownership: which objects can a script reach? ------------------------------------
+
+type c13OwnIn struct {
+	Probe  string `json:"probe"`
+	States int    `json:"states"`
+}
+
+type c13OwnObj struct {
+	Path string `json:"path"`
+	ID   int    `json:"id"` // identity of the Go object behind the Lua value, numbered per process
+	Type string `json:"type"`
+}
+
+// c13Own runs the probe script in several states of one process.  The script walks everything
+// it can reach (globals, metatables, environments, upvalues, what package.loaded holds while a
+// module is loading, ...) and reports each table/function/userdata/thread through
+// c13_own(path, value); the identities are written out for PerStateTrace.tla, which requires the
+// states to own pairwise disjoint sets of objects.
+func c13Own(args []string) int {
+	fs := flag.NewFlagSet("c13-own", flag.ExitOnError)
+	in := fs.String("in", "", "probe (json)")
+	outp := fs.String("out", "", "identities (ndjson)")
+	fs.Parse(args)
+	var inp c13OwnIn
+	readJSONFile(*in, &inp)
+	ids := map[lua.LValue]int{}
+	var keep []*lua.LState // every state stays alive so that no address is reused
+	out := struct {
+		States [][]c13OwnObj `json:"states"`
+		Errs   []string      `json:"errs"`
+	}{}
+	for k := 0; k < inp.States; k++ {
+		L := lua.NewState()
+		keep = append(keep, L)
+		var objs []c13OwnObj
+		L.SetGlobal("c13_which", lua.LNumber(k))
+		L.SetGlobal("c13_own", L.NewFunction(func(L *lua.LState) int {
+			path := L.CheckString(1)
+			v := L.Get(2)
+			switch v.(type) {
+			case *lua.LTable, *lua.LUserData, *lua.LFunction, *lua.LState:
+				id, ok := ids[v]
+				if !ok {
+					id = len(ids) + 1
+					ids[v] = id
+				}
+				objs = append(objs, c13OwnObj{path, id, v.Type().String()})
+			}
+			return 0
+		}))
+		if err := L.DoString(inp.Probe); err != nil {
+			out.Errs = append(out.Errs, err.Error())
+		}
+		out.States = append(out.States, objs)
+	}
+	w := newNdWriter(*outp)
+	w.write(out)
+	w.close()
+	for _, L := range keep {
+		L.Close()
+	}
+	return 0
 }
